@@ -285,6 +285,14 @@ fn run_cmd(cx: &mut Ctx, c: &Value) -> Value {
         "restart" => d.restart_debugee().map(|p| json!({"pid": p.as_raw()})).map_err(|e| e.to_string()),
         "detach" => d.detach().map(|_| Value::Null).map_err(|e| e.to_string()),
         "noop" => Ok(Value::Null),
+        // injected call of the puppet's non-ticking helper
+        "call" => {
+            use bugstalker::debugger::variable::dqe::Literal;
+            let arg = c["arg"].as_i64().unwrap_or(7);
+            d.call(c["fn"].as_str().unwrap_or("probe_id"), &[Literal::Int(arg)])
+                .map(|_| Value::Null)
+                .map_err(|e| e.to_string())
+        }
         // a process-directed SIGUSR1 sent by the harness while the debuggee sits at a prompt
         "signal" => {
             let pid = d.process().pid().as_raw();
